@@ -1,5 +1,7 @@
 """Order-restoration rules: R-RESTORE (every operation that dirties the heap order re-sifts before it
 returns, on every feasible path), R-UPBOTH, R-EXTREME."""
+import re
+
 from .core import walk, strip, term_str, component, const_int, STORE
 from .paths import explore, path_lines
 from .rules_decl import PQ, DPQ, QUEUES, QNAME, root_fn, is_param
@@ -177,14 +179,60 @@ def contains(t, sub):
 
 
 def restorer_calls(view, Q, f):
-    """calls in body f to the order-restoring functions of Q -> list of (bb, name, args_vp, site_term)"""
+    """calls in body f to the order-restoring functions of Q -> list of (bb, name, args_vp, site_term);
+    calls to other private functions of Q are listed as ('helper:<key>') and judged by analysing the callee"""
     out = []
     for bb, t in f.calls():
         ci = view.fx.call_info(f, bb)
         c = ci.local_callee
         if c and c.startswith(Q + "::") and c.split("::")[-1] in ("heapify", "up_heapify", "heap_build", "bubble_up"):
             out.append((bb, c.split("::")[-1], view.fx.args_vp(ci), view.vp.call_term(f, bb, t)))
+        elif c and c.startswith(Q + "::") and not view.prog.fn(c).exported and c != root_fn(view.prog, f).key:
+            out.append((bb, "helper:" + c, view.fx.args_vp(ci), view.vp.call_term(f, bb, t)))
     return out
+
+
+_HELPER_MEMO = {}
+
+
+def helper_restores(view, Q, d, callee_key, args):
+    """a private helper called after the dirty event: does its body, entered dirty, restore on every feasible path?
+    The event's position must be passed as one of its arguments (it becomes that parameter inside)."""
+    callee = view.prog.fn(callee_key)
+    if callee is None:
+        return False
+    pidx = None
+    if d.pos is not None:
+        for i, a in enumerate(args):
+            if same_pos(a, d.pos):
+                pidx = i + 1
+    elif d.kind != "BULK":
+        return False
+    memo = (view.config, id(view), callee_key, d.kind, pidx)
+    if memo in _HELPER_MEMO:
+        return _HELPER_MEMO[memo]
+    _HELPER_MEMO[memo] = False
+    if d.kind != "BULK" and pidx is None:
+        return False
+    pos = ("param", callee.key, pidx, callee.locals[pidx]["name"]) if pidx else None
+    d2 = Dirty(callee, -1, d.kind, pos, d.what, callee.span, None)
+    rcalls = restorer_calls(view, Q, callee)
+    edges, _ = vacuity_edges(view, Q, callee, d2)
+    ok = {}
+    for (bb, name, a2, site) in rcalls:
+        if name.startswith("helper:"):
+            if helper_restores(view, Q, d2, name[7:], a2):
+                ok[bb] = name
+        elif acceptable(view, Q, d2, name, a2, rcalls, site):
+            ok[bb] = name
+    res = False
+    if ok:
+        def step(st, tag, bb):
+            return 2 if tag == "R" else st
+        bad = explore(callee, {bb: ["R"] for bb in ok}, 1, step, lambda st: st == 1, stop_edges=edges)
+        res = not bad
+    _HELPER_MEMO[memo] = res
+    return res
 
 
 def qp_read(t):
@@ -263,11 +311,10 @@ def vacuity_edges(view, Q, f, d):
                     edges.add((bi, t["otherwise"]))
         # (a') the None edge of the Option returned by the keyed Store primitive: the item was absent, nothing changed
         if d.kind in ("ANY", "REMOVED") and d.site_term is not None and disc[0] == "discr" and contains(disc, d.site_term):
-            for v, tb in t["targets"]:
-                if v == 0:
+            from .core import edge_presence
+            for tb in f.cfg.succ[bi]:
+                if edge_presence(disc, t, tb) == "absent":
                     edges.add((bi, tb))
-            if all(v == 1 for v, _ in t["targets"]):
-                edges.add((bi, t["otherwise"]))
         # (a'') a test made AFTER the event that the queue is empty: `if !self.is_empty() { heap_build() }`
         dd = disc
         negd = False
@@ -280,6 +327,25 @@ def vacuity_edges(view, Q, f, d):
             empty_target = (zero[0] if zero else None) if negd else t["otherwise"]
             if empty_target is not None:
                 edges.add((bi, empty_target))
+        # (a3) any boolean test that pins the length to <= 1 on one edge (`if len > 1 { heapify(..) }`): with at most one
+        #      element (before or after the event) every arrangement is ordered
+        if disc[0] in ("binop", "call", "unop") and len(f.cfg.succ[bi]) == 2:
+            try:
+                from .rules_sift import Skel, normalise_bool
+                from .flowvp import canon as _canon
+                zero_t = [tb for v, tb in t["targets"] if v == 0]
+                for truth, tb in ((True, t["otherwise"]), (False, zero_t[0] if zero_t else None)):
+                    if tb is None:
+                        continue
+                    dd2, tr = disc, truth
+                    while dd2[0] == "unop" and dd2[1] == "Not":
+                        dd2, tr = strip(dd2[2]), not tr
+                    txt, pol = normalise_bool(_canon(dd2), tr)
+                    mm = re.match(r"^(LE|EQ)\(LEN,(\d+)\)$", txt)
+                    if mm and pol and int(mm.group(2)) <= 1:
+                        edges.add((bi, tb))
+            except Exception:
+                pass
         # (b) `match self.len() { 0 | 1 => .. }`: with at most one element left, any arrangement is ordered
         if disc[0] == "call" and disc[1].endswith("::len") and is_self_len(disc, Q):
             limit = 2 if d.kind == "REPL" else 1
@@ -333,6 +399,10 @@ def check_event(view, Q, d, in_up_heapify=False):
     okblocks = {}
     composite = None
     for (bb, name, args, site) in rcalls:
+        if name.startswith("helper:"):
+            if helper_restores(view, Q, d, name[7:], args):
+                okblocks[bb] = "helper " + name[7:].split("::")[-1]
+            continue
         if acceptable(view, Q, d, name, args, rcalls, site):
             okblocks[bb] = name
         elif name == "bubble_up" and d.kind in ("ANY", "ANYQP", "REMOVED", "PRED", "REPL") and len(args) > 1 and (
@@ -437,7 +507,8 @@ def continuation_restorers(view, Q, d):
 def closure_restores(view, Q, d, cl):
     rcalls = restorer_calls(view, Q, cl)
     edges, _ = vacuity_edges(view, Q, cl, d)
-    ok = {bb for (bb, name, args, site) in rcalls if acceptable(view, Q, d, name, args, rcalls, site)}
+    ok = {bb for (bb, name, args, site) in rcalls if (helper_restores(view, Q, d, name[7:], args) if name.startswith("helper:")
+                                                     else acceptable(view, Q, d, name, args, rcalls, site))}
     if not ok:
         return False
 
@@ -616,6 +687,16 @@ def none_on_empty(view, Q, f):
             a = strip(view.vp.operand(f, t["args"][0]))
             if a[0] == "call" and a[1].split("::")[-1] in ("find_min", "find_max", "first"):
                 return True, "`%s()?` returns None on the empty queue" % a[1].split("::")[-1]
+    # (a'') explicit `match self.find_max() { Some(i) => .., None => None }`
+    from .core import edge_presence
+    for bi in sorted(f.cfg.reach):
+        t = f.term(bi)
+        if t["k"] == "switch":
+            d = strip(view.vp.operand(f, t["discr"]))
+            if d[0] == "discr" and any(x[0] == "call" and x[1].split("::")[-1] in ("find_min", "find_max", "first") for x in walk(d)):
+                for nb in f.cfg.succ[bi]:
+                    if edge_presence(d, t, nb) == "absent" and returns_none(view, f, nb):
+                        return True, "the None arm of the match on find_*() returns None"
     # (b) explicit test of len()/size against 0 dominating the access, returning None
     vp = view.vp
     for bi in sorted(f.cfg.reach):
@@ -653,36 +734,59 @@ def returns_none(view, f, bb):
 
 
 def r_findmax(ctx, view):
-    """find_max's arms: 0 -> None, 1 -> 0, 2 -> 1, _ -> the larger of positions 1 and 2; find_min: 0 -> None, _ -> 0"""
+    """find_max: len 0 -> None, 1 -> Some(0), 2 -> Some(1), >= 3 -> the larger of positions 1 and 2;
+    find_min: 0 -> None, otherwise Some(0) - read off the guarded RETURN facts, so any branching style is accepted"""
+    from .rules_sift import Skel
     prog = view.prog
-    f = prog.fn(DPQ + "::find_max")
-    ctx.anchor("find_max", f is not None)
-    vp = view.vp
-    arms = {}
-    for bi in sorted(f.cfg.reach):
-        t = f.term(bi)
-        if t["k"] == "switch":
-            d = strip(vp.operand(f, t["discr"]))
-            if d[0] == "call" and is_self_len(d, DPQ):
-                for v, tb in t["targets"]:
-                    arms[v] = arm_value(view, f, tb)
-                arms["_"] = arm_value(view, f, t["otherwise"])
-    want = {0: "None", 1: "Some(0)", 2: "Some(1)"}
-    ok = all(arms.get(k) == v for k, v in want.items()) and str(arms.get("_", "")).startswith("Some(max{1,2}")
-    ctx.ob("R-EXTREME", "DoublePriorityQueue::find_max:arms", ok, f.loc(), "find_max arms by len(): %s" % {k: arms[k] for k in arms})
-    g = prog.fn(DPQ + "::find_min")
-    ctx.anchor("find_min", g is not None)
-    arms = {}
-    for bi in sorted(g.cfg.reach):
-        t = g.term(bi)
-        if t["k"] == "switch":
-            d = strip(vp.operand(g, t["discr"]))
-            if d[0] == "call" and is_self_len(d, DPQ):
-                for v, tb in t["targets"]:
-                    arms[v] = arm_value(view, g, tb)
-                arms["_"] = arm_value(view, g, t["otherwise"])
-    ok = arms.get(0) == "None" and arms.get("_") == "Some(0)" and set(arms) == {0, "_"}
-    ctx.ob("R-EXTREME", "DoublePriorityQueue::find_min:arms", ok, g.loc(), "find_min arms by len(): %s" % arms)
+    sk = Skel(view)
+    for name, want in (("find_max", {0: "None", 1: "Some(0)", 2: "Some(1)", 3: "Some(max{1,2})", 7: "Some(max{1,2})"}),
+                       ("find_min", {0: "None", 1: "Some(0)", 2: "Some(0)", 3: "Some(0)", 7: "Some(0)"})):
+        f = prog.fn(DPQ + "::" + name)
+        ctx.anchor(name, f is not None)
+        facts = [x for x in sk.skeleton(f) if x.startswith("RETURN ") and "  WHEN " in x]
+        table = {}
+        bad = []
+        for n in want:
+            vals = set()
+            for x in facts:
+                val, cond = x[len("RETURN "):].split("  WHEN ", 1)
+                if cond_holds(cond, n):
+                    vals.add(render_return(val))
+            table[n] = sorted(vals)
+            if vals != {want[n]}:
+                bad.append("len %d -> %s (expected %s)" % (n, sorted(vals), want[n]))
+        ctx.ob("R-EXTREME", "DoublePriorityQueue::%s:arms" % name, not bad, f.loc(),
+               "%s by length: %s" % (name, table) if not bad else "; ".join(bad))
+
+
+def cond_holds(cond, n):
+    """evaluate a conjunction of normalised LEN literals for LEN = n (literals about anything else count as true)"""
+    if cond.strip() == "always":
+        return True
+    for lit in cond.split(" & "):
+        neg = lit.startswith("!")
+        body = lit[1:] if neg else lit
+        m = re.match(r"^(EQ|GE|LE)\(LEN,(\d+)\)$", body)
+        if not m:
+            continue
+        k = int(m.group(2))
+        v = {"EQ": n == k, "GE": n >= k, "LE": n <= k}[m.group(1)]
+        if neg:
+            v = not v
+        if not v:
+            return False
+    return True
+
+
+def render_return(val):
+    if val.startswith("Option::None"):
+        return "None"
+    m = re.match(r"^Option::Some\(Position::Position\((\d+)_usize\)\)$", val)
+    if m:
+        return "Some(%s)" % m.group(1)
+    if "max_by_key" in val and "array(Position::Position(1_usize),Position::Position(2_usize))" in val and "get_priority_from_position" in val:
+        return "Some(max{1,2})"
+    return val[:60]
 
 
 def arm_value(view, f, bb):
